@@ -522,6 +522,8 @@ class Gen(object):
             if isinstance(n.slice, ast.Slice):
                 return self.slice(l, n.slice, path, n.lineno)
             i = ev(n.slice)
+            if is_int(i):
+                i = z3.simplify(i)
             return self.index(l, i, path, n.lineno)
         if isinstance(n, ast.Call):
             return self.call(n, path)
@@ -565,11 +567,9 @@ class Gen(object):
         hi = self.expr(s.upper, path) if s.upper is not None else l.ln
 
         def normi(v, node):
-            if node is not None and isinstance(node, ast.UnaryOp) and isinstance(node.op, ast.USub):
-                return l.ln + v          # literal negative bound
-            if z3.is_int_value(v) and v.as_long() < 0:
-                return l.ln + v
-            return v
+            if z3.is_int_value(v):
+                return l.ln + v if v.as_long() < 0 else v
+            return z3.If(v < 0, l.ln + v, v)          # Python: a negative bound counts from the end
         lo, hi = normi(lo, s.lower), normi(hi, s.upper)
         # clamp as Python does
         clamp = lambda v: z3.If(v < 0, z3.IntVal(0), z3.If(v > l.ln, l.ln, v))
@@ -693,6 +693,12 @@ class Gen(object):
                 a = ev(n.args[0])
                 return z3.If(a >= 0, a, -a)
             if f == 'float':
+                a0 = n.args[0]
+                if isinstance(a0, ast.Call) and isinstance(a0.func, ast.Attribute) and a0.func.attr == 'format' \
+                        and len(a0.args) == 1:
+                    # float("{:.Nf}".format(x)): rounding to N decimals, the identity under assumption A2
+                    self.dropped.append('decimal rounding float("{:.Nf}".format(x)) at line %d treated as identity (A2)' % n.lineno)
+                    return to_real(ev(a0.args[0]))
                 return to_real(ev(n.args[0]))
             if f == 'int':
                 a = ev(n.args[0])
@@ -712,6 +718,8 @@ class Gen(object):
             if f in ('min', 'max') and len(n.args) == 2:
                 a, b = unify(ev(n.args[0]), ev(n.args[1]))
                 return z3.If(a <= b, a, b) if f == 'min' else z3.If(a >= b, a, b)
+            if f == 'deepcopy':
+                return ev(n.args[0])          # A4: deepcopy of plain lists is the identity on values
             if f == 'tuple' or f == 'list':
                 return ev(n.args[0]) if n.args else SList(z3.K(I, z3.RealVal(0)), z3.IntVal(0), 'real')
             if f == 'isinstance':
@@ -724,7 +732,7 @@ class Gen(object):
             target = path.env.get(f)
             if isinstance(target, SFunc):
                 return self.call_contract(target.name, n, path)
-            qual = self.modname + '.' + f
+            qual = self.c.get('imports', {}).get(f, self.modname + '.' + f)
             if qual in self.registry:
                 return self.call_contract(qual, n, path)
             raise Unsupported('call of %s' % f)
@@ -781,6 +789,9 @@ class Gen(object):
                 raise Unsupported('**kwargs at a call')
             actual[kw.arg] = self.expr(kw.value, path)
         for nm in names:
+            if nm not in actual and c['args'][nm] == 'kwargs':
+                actual[nm] = SKwargs({k: self.spec_value(v) for k, v in c.get('kwargs', {}).items()})
+                continue
             if nm not in actual:
                 d = c.get('defaults', {}).get(nm)
                 if d is None:
@@ -788,7 +799,7 @@ class Gen(object):
                 actual[nm] = self.spec_value(d)
         # coerce ints to reals where the callee expects reals
         for nm in names:
-            if c['args'][nm] == 'real':
+            if c['args'][nm] == 'real' and z3.is_expr(actual[nm]):
                 actual[nm] = to_real(actual[nm])
         sub = Gen(None, c, self.registry, qual.rsplit('.', 1)[0])
         sub.specfuncs = dict(self.specfuncs)
